@@ -153,10 +153,12 @@ func checkLens(q aQ, r aR, up *dns.Msg) string {
 			}
 		}
 	}
-	if o := up.IsEdns0(); o != nil {
-		n := optLen(optOptions(o))
-		cl += n
-		ul += n
+	for _, rr := range up.Extra {
+		if o, ok := rr.(*dns.OPT); ok {
+			n := optLen(optOptions(o))
+			cl += n
+			ul += n
+		}
 	}
 	c := *up
 	c.Compress = true
@@ -340,7 +342,13 @@ func exec(op string) vlib.Res {
 			if err != nil {
 				or = fail(entry+"/reply/unpackable", err.Error())
 			} else {
-				or = judgeHinted(entry, entryKind{proto: proto}, curCfg.deploy(), raw, packed, r)
+				// the harness writer stands in for the DoQ stream writer (the one
+				// that zeroes the ID), so the ID is judged as an echo here
+				jp := map[string]string{"doq": "doq-noid"}[proto]
+				if jp == "" {
+					jp = proto
+				}
+				or = judgeHinted(entry, entryKind{proto: jp}, curCfg.deploy(), raw, packed, r)
 			}
 		}
 		tags := ruleTags(q, r, proto, w.msg)
